@@ -18,7 +18,7 @@ JOBS = {
         rule="seed -> plan (top-level and in-action schedule/cancel/reschedule/reprioritise/pattern/clear steps) -> real event queue vs exact model; "
              "distinct = distinct trace hashes; non-trivial = >= 4 events and at least one step issued from inside a running action",
         jobs=[J("events", "rel", 120000, 3000000), J("events", "san", 15000, 300000)],
-        wall_quick=50, wall_thorough=900,
+        wall_quick=50, wall_thorough=900, crash_is_violation=True,
         assumptions=["FIFO among equal (time, priority) is judged by issue order; handles only need to be non-zero and distinct among pending events",
                      "pattern_find may return any matching event (order unspecified by the header)"],
     ),
@@ -27,7 +27,7 @@ JOBS = {
         rule="seed -> operation history on a stand-alone cmi_hashheap (initial exponent 1-6; default, waiting-list, pool-holder and object-priority orders taken from freshly initialised library objects; automatic and colliding caller keys) vs map+order model with a structural check after every operation; "
              "distinct = distinct trace hashes; non-trivial = crossed a capacity doubling, had colliding caller keys live together, or re-inserted a removed key",
         jobs=[J("hheap", "rel", 400000, 8000000), J("hheap", "san", 40000, 800000)],
-        wall_quick=50, wall_thorough=900,
+        wall_quick=50, wall_thorough=900, crash_is_violation=True,
         assumptions=["'minimum' is judged with the comparator the library installed (no live element strictly preferred); for the default order additionally with the documented increasing-dsortkey rule",
                      "the event order is exercised through C01 (its comparator and queue are private statics)"],
     ),
@@ -36,7 +36,7 @@ JOBS = {
         rule="seed -> alloc/free/verify history on a dynamic pool or on statically initialised thread-local pools (one thread, or two real threads under the baton scheduler with thread exit and cmi_mempool_cleanup) vs address/stamp ledger; "
              "distinct = distinct trace hashes; non-trivial = >= 8 allocations and at least one pool expansion",
         jobs=[J("mempool", "rel", 12000, 300000), J("mempool", "san", 3000, 60000)],
-        wall_quick=50, wall_thorough=900,
+        wall_quick=50, wall_thorough=900, crash_is_violation=True,
         assumptions=["object sizes are multiples of 8 from {8,16,24,40,64,512,2048,4096,8192}; at most 40000 live objects"],
     ),
     "C03": dict(
